@@ -159,6 +159,15 @@ def judge_c02(rec):
         if e[0] == 'obs' and e[5] and not e[4] and not facts['harness_cancel']:
             out.append(V('future-done-while-live', 'future-done-while-live:%s' % e[2], 'future done in live state %s' % e[2]))
             break
+    # ... also when the harness cancelled the future itself: that is a kill request, so at the next quiescent point the process
+    # is terminated (a cancelled future on a process that stays live is a resolved future on a live process)
+    for a in rec['acts']:
+        if a['kind'] == 'cancel_future' and a['live_before'] and a['ret'] == ['value', True]:
+            q = next((q for q in rec['qpoints'] if q['nacts'] > a['n']), None)
+            if q is not None and not q['terminated']:
+                out.append(V('future-done-while-live', 'future-done-while-live:cancelled:%s' % q['state'],
+                             'the future was cancelled but at the next quiescent point the process is still %s (paused=%s)' % (q['state'], q['paused'])))
+                break
     if not fin['terminated']:
         return _dedupe(out)
     state = fin['state']
@@ -226,6 +235,11 @@ def judge_c02(rec):
     ncleanup = sum(1 for e in rec['events'] if e[0] == 'cleanup')
     if ncleanup != 1:
         bad('cleanup-count', 'registered cleanup ran %d times' % ncleanup)
+    if rec['case'].get('cleanup_chain'):
+        n1 = sum(1 for e in rec['events'] if e[0] == 'cleanup-first')
+        n2 = sum(1 for e in rec['events'] if e[0] == 'cleanup-late')
+        if (n1, n2) != (1, 1):
+            bad('cleanup-count', 'a cleanup that registers a further cleanup ran %d times, the one it registered %d times' % (n1, n2))
     if fin['closed'] is not True:
         bad('not-closed', 'process not closed after termination (%s)' % fin['closed'])
     if rec['task'] != ['done']:
